@@ -522,12 +522,12 @@ def _index_ok(ctx, p, b, fn, bi, base, idx):
             if pu is not None:
                 return 'inv', 'index of the node just pushed'
             # indices returned by the extension helper / stored parent links / BFS frontier
-            if idx and all(n[0] in ('unwrap', 'field', 'param', 'rec') for n in idx):
+            if idx and all(n[0] in ('unwrap', 'field', 'param', 'rec', 'payload') for n in idx):
                 return 'inv', 'index previously produced by the planner for this container (C15.range / C18.bfs)'
         else:
             # roadmap: accesses sit behind the emptiness gate (C08.gates) and use scan / stored indices
             src2 = P.iter_source(idx)
-            if src2 is not None or (idx and all(n[0] in ('unwrap', 'field', 'param', 'rec') for n in idx)):
+            if src2 is not None or (idx and all(n[0] in ('unwrap', 'field', 'param', 'rec', 'payload') for n in idx)):
                 return 'inv', 'roadmap index from a 0..len scan, an adjacency list or the search frontier (C18.sym / C18.bfs)'
     # visited[k] with visited = vec![false; len(roadmap)] and k a roadmap index
     def _is_marker(ts, d=0):
